@@ -16,6 +16,7 @@ from __future__ import annotations
 import itertools
 
 import ndn.encoding as enc
+from ndn import types as nt
 from mc.ref import ndn_strict as ns
 from mc.ref import tlv_strict as ts
 from ndn.app_support.dispatcher import Dispatcher
@@ -315,6 +316,43 @@ def reply_cases():
             for nrep in (1, 2):
                 for token in (None, 'aabb', ''):
                     yield {'lifetime': lifetime, 'dt': dt, 'nrep': nrep, 'token': token}
+    for token in (None, 'aabb'):
+        yield {'lifetime': 4000, 'dt': 5, 'nrep': 1, 'token': token, 'down': True}
+
+
+def run_reconnect(rot):
+    """appv2: handlers stay attached over the end of one connection and the start of the next one (same application object)"""
+    viol = []
+    acc = Acc()
+    tb = Table('v2')
+    try:
+        attached = {}
+        for k, p in enumerate([('a',), ('a', 'b'), ('b',)]):
+            tb.attach(p, rot + k, 'h' + '/'.join(p))
+            attached[p] = 'h' + '/'.join(p)
+        check_table(tb, attached, PROBES4, 'reconnect-before', viol, acc)
+        for session in (1, 2):
+            tb.app.shutdown()
+            tb.loop.settle()
+            tb.main = tb.loop.create_task(tb.app.main_loop())
+            tb.loop.drain()
+            if not viol:
+                check_table(tb, attached, PROBES4, f'reconnect-session-{session}', viol, acc)
+            # an occupied prefix is still occupied
+            try:
+                tb.attach(('a',), rot, 'intruder')
+                viol.append(('C04|v2|reconnect|duplicate-attach-accepted', f'second handler accepted on /a in session {session}'))
+                break
+            except ValueError:
+                pass
+            if session == 1:
+                tb.detach(('b',), rot)
+                del attached[('b',)]
+    except Exception as e:  # noqa
+        viol.append((f'C04|v2|reconnect|raises:{type(e).__name__}', repr(e)))
+    finally:
+        tb.close()
+    return viol
 
 
 def run_reply(case):
@@ -343,6 +381,23 @@ def run_reply(case):
         loop.drain()
         data = bytes(enc.make_data('/p/x', enc.MetaInfo(), b'reply-content'))
         obs = []
+        if case.get('down'):
+            # the connection is gone when the handler gets round to replying: nothing can be transmitted, and the callback must
+            # not claim otherwise (with or without PIT token)
+            app.shutdown()
+            loop.drain()
+            before = len(face.sent)
+            try:
+                r = reply(data)
+                if r:
+                    viol.append((f'C04|v2|reply|success-on-closed-face|token={token is not None}',
+                                 f'reply returned {r!r} although the face is down (nothing transmitted: {len(face.sent) == before}) in {case}'))
+            except nt.NetworkError:
+                pass
+            except Exception as e:  # noqa
+                viol.append((f'C04|v2|reply|raises:{type(e).__name__}', f'reply on a closed face raised {e!r} in {case}'))
+            loop.settle()
+            return viol, [('down', len(face.sent) - before)]
         for k in range(case['nrep']):
             before = len(face.sent)
             try:
@@ -464,6 +519,16 @@ def unit(arg):
                 acc.violation(sig, what, {'kind': 'hist', 'api': arg['api'], 'seq': seq})
         acc.sample({'api': arg['api'], 'history': [f'{OPS[o][0]} /{"/".join(HP[OPS[o][1]])}' for o in seq]})
     else:
+        for rot in range(5):
+            v = run_reconnect(rot)
+            acc.evaluations += 1
+            acc.state_count += 1
+            acc.nontrivial += 1
+            acc.transitions += 3 * len(PROBES4)
+            acc.outcome(f"reconnect|{'ok' if not v else 'viol'}")
+            acc.observe(['reconnect', rot, [x[0] for x in v]])
+            for sig, what in v:
+                acc.violation(sig, what, {'kind': 'reconnect', 'rot': rot})
         for case in reply_cases():
             v, obs = run_reply(case)
             acc.evaluations += 1
@@ -484,6 +549,8 @@ def replay(case):
         v = run_lookup(case['api'], tuple(tuple(p) for p in case['subset']), case['rot'], PROBES4, acc)
     elif case['kind'] == 'hist':
         v = run_history(case['api'], case['seq'], acc)
+    elif case['kind'] == 'reconnect':
+        v = run_reconnect(case['rot'])
     else:
         v, _ = run_reply(case['case'])
     return [{'sig': s, 'what': w} for s, w in v]
